@@ -1018,6 +1018,10 @@ func (y *ifFeatureEval) wellFormed() bool {
 func (y *ifFeatureEval) eval(greedy bool) {
 	for !y.end() {
 		tok := y.next()
+		if tok == "" {
+			// only white space was left
+			break
+		}
 		switch tok {
 		case "(":
 			y.eval(false)
